@@ -2187,3 +2187,132 @@ Proof.
         assert (k2 = k) by (apply (same_uuid_same_row (db_trks tw)); auto; [exact (inv_trks_nodup _ HIw)|congruence]).
         subst k2. apply N.leb_gt in Hl. lia.
 Qed.
+
+(* a run of consecutive block connections: (hash, transactions, node script) per block *)
+Definition connects (bs : list (N * list N * script)) : list (op * script) :=
+  map (fun b => (OConnect (fst (fst b)) (snd (fst b)), snd b)) bs.
+
+(* no step aborts and tracker U is still in the table after each block (it is not rejected, its
+   owner's subscription does not lapse) *)
+Fixpoint stays (le : bool) (U : N * N) (t : tower) (bs : list (N * list N * script)) : Prop :=
+  match bs with
+  | [] => True
+  | b :: r =>
+      snd (step le t (OConnect (fst (fst b)) (snd (fst b))) (snd b)) = OBlockRes /\
+      find_trk (db_trks (fst (step le t (OConnect (fst (fst b)) (snd (fst b))) (snd b)))) U <> None /\
+      stays le U (fst (step le t (OConnect (fst (fst b)) (snd (fst b))) (snd b))) r
+  end.
+
+Lemma run_connects_cons le t b r :
+  snd (step le t (OConnect (fst (fst b)) (snd (fst b))) (snd b)) = OBlockRes ->
+  fst (run le t (connects (b :: r))) = fst (run le (fst (step le t (OConnect (fst (fst b)) (snd (fst b))) (snd b))) (connects r)).
+Proof.
+  intros H. cbn [connects map run]. fold (connects r).
+  destruct (step le t (OConnect (fst (fst b)) (snd (fst b))) (snd b)) as [t1 x]. cbn [fst snd] in *. subst x.
+  destruct (run le t1 (connects r)) as [t2 xs]. reflexivity.
+Qed.
+
+Lemma stays_firstn le U i : forall bs t, stays le U t bs -> stays le U t (firstn i bs).
+Proof.
+  induction i as [|i IH]; intros bs t H; [exact I|]. destruct bs as [|b r]; [exact I|].
+  cbn [firstn stays] in *. destruct H as [H1 [H2 H3]]. auto.
+Qed.
+
+Lemma in_firstn {A} (x : A) i : forall l, In x (firstn i l) -> In x l.
+Proof.
+  induction i as [|i IH]; intros l H; [destruct H|]. destruct l as [|y l]; [destruct H|].
+  cbn [firstn] in H. destruct H as [H|H]; [left; exact H|right; apply IH; exact H].
+Qed.
+
+Lemma restamp_self k : t_conf k = false -> restamp k (t_height k) false = k.
+Proof. intros H. destruct k. cbn in *. subst. reflexivity. Qed.
+
+Lemma cadence_run le U p A0 x : forall bs t k q,
+  cad_inv U p A0 t k -> t_height k = x + RETRY * q -> gk_height t < t_height k + RETRY ->
+  (q = 0 \/ t_height k <= gk_height t) ->
+  (forall b, In b bs -> ~ In p (snd (fst b)) /\ forall a, In a A0 -> ~ In (a_loc a) (snd (fst b))) ->
+  stays le U t bs -> bs <> [] ->
+  gk_height (fst (run le t (connects bs))) = gk_height t + N.of_nat (length bs) /\
+  exists q', find_trk (db_trks (fst (run le t (connects bs)))) U = Some (restamp k (x + RETRY * q') false) /\
+             gk_height t + N.of_nat (length bs) < x + RETRY * q' + RETRY /\
+             (q' = 0 \/ x + RETRY * q' <= gk_height t + N.of_nat (length bs)) /\
+             ((exists r, In (mk_rpc K_send p r) (rpc_log (fst (run le t (connects bs))))) <->
+              (0 < q' /\ gk_height t + N.of_nat (length bs) = x + RETRY * q')).
+Proof.
+  induction bs as [|b r IH]; intros t k q Hci Hx Hnd Hq Hbs Hst Hne; [contradiction|].
+  cbn [stays] in Hst. destruct Hst as [Hok [Hsurv Hst]].
+  rewrite (run_connects_cons le t b r Hok).
+  destruct (Hbs b (or_introl eq_refl)) as [Hp Hnb].
+  assert (Hstep := cadence_step le U p A0 t k (fst (fst b)) (snd (fst b)) (snd b)
+                     (fst (step le t (OConnect (fst (fst b)) (snd (fst b))) (snd b))) Hci Hnd Hp Hnb).
+  destruct (step le t (OConnect (fst (fst b)) (snd (fst b))) (snd b)) as [t1 o] eqn:Es. cbn [fst snd] in *. subst o.
+  specialize (Hstep eq_refl Hsurv). destruct Hstep as [Hh1 Hcase].
+  pose proof RETRY_6 as R6.
+  assert (Hconf : t_conf k = false) by (destruct Hci as [_ [_ [_ [_ [Hc _]]]]]; exact Hc).
+  destruct r as [|b2 r2].
+  - (* last block *)
+    cbn [connects map run fst length]. split; [lia|].
+    destruct (N.eqb_spec (gk_height t + 1) (t_height k + RETRY)) as [Hdue|Hnot].
+    + destruct Hcase as [Hci1 Hlog]. exists (q + 1).
+      replace (x + RETRY * (q + 1)) with (gk_height t + 1) by lia.
+      split; [destruct Hci1 as [_ [_ [_ [Hf _]]]]; exact Hf|]. split; [lia|]. split; [right; lia|].
+      split; [intros _; lia|intros _; exact Hlog].
+    + destruct Hcase as [Hci1 Hlog]. exists q. rewrite <- Hx, (restamp_self k Hconf).
+      split; [destruct Hci1 as [_ [_ [_ [Hf _]]]]; exact Hf|]. split; [lia|]. split; [destruct Hq; [left; assumption|right; lia]|].
+      split; [intros H; contradiction|]. intros [H1 H2]. exfalso. destruct Hq; lia.
+  - (* more blocks follow *)
+    assert (Hbs' : forall b0, In b0 (b2 :: r2) -> ~ In p (snd (fst b0)) /\ forall a, In a A0 -> ~ In (a_loc a) (snd (fst b0)))
+      by (intros b0 Hb0; apply Hbs; right; exact Hb0).
+    assert (Hlen : gk_height t + N.of_nat (length (b :: b2 :: r2)) = gk_height t1 + N.of_nat (length (b2 :: r2)))
+      by (cbn [length]; lia).
+    rewrite Hlen.
+    destruct (N.eqb_spec (gk_height t + 1) (t_height k + RETRY)) as [Hdue|Hnot].
+    + destruct Hcase as [Hci1 _].
+      destruct (IH t1 (restamp k (gk_height t + 1) false) (q + 1) Hci1) as [Hh [q' [Hf [Hlt [Hq' Hiff]]]]];
+        [cbn [t_height restamp]; lia|cbn [t_height restamp]; lia|right; cbn [t_height restamp]; lia|exact Hbs'|exact Hst|discriminate|].
+      split; [exact Hh|]. exists q'. rewrite restamp_restamp in Hf. auto.
+    + destruct Hcase as [Hci1 _].
+      destruct (IH t1 k q Hci1) as [Hh [q' [Hf [Hlt [Hq' Hiff]]]]];
+        [exact Hx|lia|destruct Hq; [left; assumption|right; lia]|exact Hbs'|exact Hst|discriminate|].
+      split; [exact Hh|]. exists q'. auto.
+Qed.
+
+(* A tracker InMempoolSince x that stays unconfirmed in the table, with no disconnection pending, an
+   empty carrier memo, blocks that contain neither its penalty nor the dispute of any appointment
+   (so that the watcher submits nothing that could be memoized) and no other tracker sharing its
+   penalty: in the block that brings the tower to height H the penalty is re-sent iff
+   H = x + RETRY * j for some j >= 1, and the row is then restamped to H. *)
+Theorem resent_every_6th_block le t0 U k0 bs :
+  Inv t0 -> reorged t0 = [] -> car_memo t0 = [] ->
+  find_trk (db_trks t0) U = Some k0 -> t_conf k0 = false ->
+  (forall k', In k' (db_trks t0) -> t_penalty k' = t_penalty k0 -> trk_uuid k' = U) ->
+  gk_height t0 < t_height k0 + RETRY ->
+  (forall b, In b bs -> ~ In (t_penalty k0) (snd (fst b)) /\
+                        forall a, In a (db_apps t0) -> ~ In (a_loc a) (snd (fst b))) ->
+  stays le U t0 bs ->
+  forall i, (0 < i <= length bs)%nat ->
+    let ti := fst (run le t0 (connects (firstn i bs))) in
+    let H := gk_height t0 + N.of_nat i in
+    gk_height ti = H /\
+    ((exists r, In (mk_rpc K_send (t_penalty k0) r) (rpc_log ti)) <-> (exists j, 0 < j /\ H = t_height k0 + RETRY * j)) /\
+    (exists q, find_trk (db_trks ti) U = Some (restamp k0 (t_height k0 + RETRY * q) false) /\
+               H < t_height k0 + RETRY * q + RETRY /\ (q = 0 \/ t_height k0 + RETRY * q <= H)).
+Proof.
+  intros HI Hrg Hmemo Hf Hc Huniq Hnd Hbs Hst i Hi.
+  assert (Hlen : length (firstn i bs) = i) by (apply firstn_length_le; lia).
+  assert (Hci : cad_inv U (t_penalty k0) (db_apps t0) t0 k0).
+  { unfold cad_inv. split; [exact HI|]. split; [exact Hrg|]. split; [exact Hmemo|]. split; [exact Hf|]. split; [exact Hc|].
+    split; [reflexivity|]. split; [exact Huniq|apply incl_refl]. }
+  destruct (cadence_run le U (t_penalty k0) (db_apps t0) (t_height k0) (firstn i bs) t0 k0 0 Hci) as [Hh [q [Hrow [Hlt [Hq Hiff]]]]].
+  - lia.
+  - exact Hnd.
+  - left. reflexivity.
+  - intros b Hb. apply Hbs. eapply in_firstn. exact Hb.
+  - apply stays_firstn. exact Hst.
+  - intros E. rewrite E in Hlen. cbn in Hlen. lia.
+  - rewrite Hlen in *. pose proof RETRY_6 as R6. cbv zeta. split; [exact Hh|]. split.
+    + rewrite Hiff. split.
+      * intros [H1 H2]. exists q. auto.
+      * intros [j [Hj HH]]. destruct Hq as [Hq|Hq]; [subst q; lia|]. assert (q = j) by lia. subst j. split; [lia|exact HH].
+    + exists q. auto.
+Qed.
